@@ -13,17 +13,19 @@ import (
 
 func init() {
 	register(&Property{
-		ID:        "C03",
-		Title:     "Unique and set indexes mirror entity state; uniqueness is enforced",
-		Technique: "static analysis: must-pass ordering of the capture-old/persist/apply-new protocol, path rule 'the old index entry is removed on every changed path', no-removal-after-addition phase rule, duplicate-check dominance for unique puts, empty-key probe pairing, capture/remover pairing per constraint type",
-		LevelText: "Structural necessary conditions, decided on every path: Update runs ProcessBeforeUpdate before and ProcessAfterUpdate after the persist, Create runs ProcessAfterUpdate after it, the delete path runs ProcessBeforeDelete and link cleanup before removing the entity; each index's apply step removes the captured old entry on every path where the value changed (no early exit around it), adds nothing before all removals are done, puts a unique value only on the not-present edge of a lookup of that value (else records the duplicate error), and prunes an emptied set-index key only right after probing it; every index-writing constraint captures its old state and has a remover on delete. The equality of index content and entity state after arbitrary histories needs execution and is not decided.",
-		LevelNote: "Trusted: go/types, x/tools SSA, bbolt. Interface dispatch resolved by name-and-shape CHA over the repository.",
-		DesignRef: "DESIGN.md C03",
+		ID:          "C03",
+		Title:       "Unique and set indexes mirror entity state; uniqueness is enforced",
+		Technique:   "static analysis: must-pass ordering of the capture-old/persist/apply-new protocol, path rule 'the old index entry is removed on every changed path', no-removal-after-addition phase rule, duplicate-check dominance for unique puts, empty-key probe pairing, capture/remover pairing per constraint type",
+		LevelText:   "Structural necessary conditions, decided on every path: Update runs ProcessBeforeUpdate before and ProcessAfterUpdate after the persist, Create runs ProcessAfterUpdate after it, the delete path runs ProcessBeforeDelete and link cleanup before removing the entity; each index's apply step removes the captured old entry on every path where the value changed (no early exit around it), adds nothing before all removals are done, puts a unique value only on the not-present edge of a lookup of that value (else records the duplicate error), and prunes an emptied set-index key only right after probing it; every index-writing constraint captures its old state and has a remover on delete. The equality of index content and entity state after arbitrary histories needs execution and is not decided.",
+		LevelNote:   "Trusted: go/types, x/tools SSA, bbolt. Interface dispatch resolved by name-and-shape CHA over the repository.",
+		DesignRef:   "DESIGN.md C03",
 		Explanation: "Sites: BaseStore.Create/Update/processDeleteConstraints, IndexingContext.Process*, every Constraint implementer's ProcessBeforeUpdate/ProcessAfterUpdate/ProcessBeforeDelete.",
-		Trusted:   []string{"go/types", "golang.org/x/tools/go/ssa v0.29.0", "bbolt"},
+		Trusted:     []string{"go/types", "golang.org/x/tools/go/ssa v0.29.0", "bbolt"},
 		Rules: func(c *Ctx) {
 			ruleProtocol(c, "C03.PROTOCOL")
 			ruleOldFirst(c, "C03.OLDFIRST", []string{"uniqueIndex"})
+			ruleUnchangedShortcut(c, "C03.UNCHANGED", []string{"uniqueIndex"})
+			rulePathFresh(c, "C03.PATHFRESH")
 			ruleNoRemoveAfterAdd(c, "C03.PHASES", []string{"uniqueIndex", "setIndex"})
 			ruleUniq(c, "C03.UNIQ")
 			ruleEmptyKey(c, "C03.EMPTYKEY")
@@ -32,38 +34,41 @@ func init() {
 		},
 	})
 	register(&Property{
-		ID:        "C04",
-		Title:     "Foreign keys: targets exist, back-references exact, delete restricts or cascades",
-		Technique: "static analysis: taint rule (no run-time text flows into a filter parser from inside the library), wiring rule for the Add*Fk* registrations, existence-check dominance, old-back-reference-removed-on-every-changed-path rule, shape rule for the restrict/cascade delete loop (delete inside the live cursor loop with re-seek)",
-		LevelText: "Necessary conditions decided on every path: no filter text is assembled from data inside the library (ids with quotes, backslashes or keywords cannot change a query's meaning); every fk registration also registers the delete-side constraint on the target store; a back-reference is written only into an existing target (not-found otherwise) and fk constraints test the target's presence; on update the old back-reference is removed on every path where the reference changed; restrict refuses while a referrer exists; cascade deletes referrers from the live cursor (re-seeking after each delete), returning on the first error. Exact back-reference sets after histories are not decided.",
-		LevelNote: "Trusted: go/types, x/tools SSA, bbolt; evaluation of the AST filter used by the cascade is C01's domain.",
-		DesignRef: "DESIGN.md C04",
+		ID:          "C04",
+		Title:       "Foreign keys: targets exist, back-references exact, delete restricts or cascades",
+		Technique:   "static analysis: taint rule (no run-time text flows into a filter parser from inside the library), wiring rule for the Add*Fk* registrations, existence-check dominance, old-back-reference-removed-on-every-changed-path rule, shape rule for the restrict/cascade delete loop (delete inside the live cursor loop with re-seek)",
+		LevelText:   "Necessary conditions decided on every path: no filter text is assembled from data inside the library (ids with quotes, backslashes or keywords cannot change a query's meaning); every fk registration also registers the delete-side constraint on the target store; a back-reference is written only into an existing target (not-found otherwise) and fk constraints test the target's presence; on update the old back-reference is removed on every path where the reference changed; restrict refuses while a referrer exists; cascade deletes referrers from the live cursor (re-seeking after each delete), returning on the first error. Exact back-reference sets after histories are not decided.",
+		LevelNote:   "Trusted: go/types, x/tools SSA, bbolt; evaluation of the AST filter used by the cascade is C01's domain.",
+		DesignRef:   "DESIGN.md C04",
 		Explanation: "Sites: every call of ast.Parse/QueryIds/DeleteWhere/zitiql.Parse made from library code; Indexer.Add*Fk*; fkIndex/fkConstraint/fkDeleteConstraint/fkDeleteCascadeConstraint Process* methods.",
-		Trusted:   []string{"go/types", "golang.org/x/tools/go/ssa v0.29.0", "bbolt"},
+		Trusted:     []string{"go/types", "golang.org/x/tools/go/ssa v0.29.0", "bbolt"},
 		Rules: func(c *Ctx) {
 			ruleInject(c, "C04.INJECT")
 			ruleFkWiring(c, "C04.WIRING")
 			ruleFkExists(c, "C04.EXISTS")
 			ruleOldFirst(c, "C04.OLDFIRST", []string{"fkIndex"})
+			ruleUnchangedShortcut(c, "C04.UNCHANGED", []string{"fkIndex", "fkConstraint"})
 			ruleNoRemoveAfterAdd(c, "C04.PHASES", []string{"fkIndex"})
 			ruleFkDelete(c, "C04.DELETE")
 		},
 		Controls: []controlExpect{{"C04.INJECT", "zzControlBad_C04_INJECT", true}},
 	})
 	register(&Property{
-		ID:        "C05",
-		Title:     "Link collections stay symmetric; ref-counted links agree on both sides",
-		Technique: "static analysis: pairing rule (every local link write is followed on all success paths by the opposite-side write of the same polarity with swapped arguments), missing-entity error rule, count-agreement check rule, unconditional remote removal on entity delete, no-mutation-of-the-iterated-bucket rule, error-holder consultation",
-		LevelText: "Necessary conditions decided on every path: each function that writes the local side of a link also performs the remote operation of the same polarity with (id, key) swapped before reporting success; adding a link to a missing entity returns an error; increment/decrement compare both sides' new counts; deleting an entity removes the remote entry of every link unconditionally and both link kinds are cleaned up; no function deletes from a bucket while it is walking that bucket's cursor; recorded bucket errors are returned. Correctness of the SetLinks sorted merge on data is not decided.",
-		LevelNote: "Trusted: go/types, x/tools SSA, bbolt cursor semantics (deleting under a live cursor may skip entries).",
-		DesignRef: "DESIGN.md C05",
+		ID:          "C05",
+		Title:       "Link collections stay symmetric; ref-counted links agree on both sides",
+		Technique:   "static analysis: pairing rule (every local link write is followed on all success paths by the opposite-side write of the same polarity with swapped arguments), missing-entity error rule, count-agreement check rule, unconditional remote removal on entity delete, no-mutation-of-the-iterated-bucket rule, error-holder consultation",
+		LevelText:   "Necessary conditions decided on every path: each function that writes the local side of a link also performs the remote operation of the same polarity with (id, key) swapped before reporting success; adding a link to a missing entity returns an error; increment/decrement compare both sides' new counts; deleting an entity removes the remote entry of every link unconditionally and both link kinds are cleaned up; no function deletes from a bucket while it is walking that bucket's cursor; recorded bucket errors are returned. Correctness of the SetLinks sorted merge on data is not decided.",
+		LevelNote:   "Trusted: go/types, x/tools SSA, bbolt cursor semantics (deleting under a live cursor may skip entries).",
+		DesignRef:   "DESIGN.md C05",
 		Explanation: "Sites: all functions of link_collection.go and link_collection_rc.go, TypedBucket link-count methods, BaseStore.cleanupLinks.",
-		Trusted:   []string{"go/types", "golang.org/x/tools/go/ssa v0.29.0", "bbolt"},
+		Trusted:     []string{"go/types", "golang.org/x/tools/go/ssa v0.29.0", "bbolt"},
 		Rules: func(c *Ctx) {
 			ruleLinkPair(c, "C05.PAIR")
 			ruleLinkMissing(c, "C05.MISSING")
 			ruleRcCheck(c, "C05.RCCHECK")
 			ruleLinkCleanup(c, "C05.CLEANUP")
+			ruleCleanupPlacement(c, "C05.CLEANUP")
+			ruleKeyPresence(c, "C05.PRESENCE")
 			ruleNoMutateWhileIterating(c, "C05.ITERATE", c.prodFuncs("boltz"))
 			ruleHolder(c, "C05.HOLDER", c.prodFuncs("boltz"), map[string]bool{
 				"(*boltz.TypedBucket).SetLinkCount": true, "(*boltz.TypedBucket).IncrementLinkCount": true, "(*boltz.TypedBucket).DecrementLinkCount": true,
@@ -75,19 +80,21 @@ func init() {
 		},
 	})
 	register(&Property{
-		ID:        "C06",
-		Title:     "A committed delete leaves no trace of the entity's id",
-		Technique: "static analysis: must-pass orchestration of the delete path (parent delegation, child fan-out, constraints, link cleanup, entity bucket removal), writer⊆remover pairing per constraint type, stale-back-reference rule on updates, unconditional remote link removal, no-mutation-of-the-iterated-bucket rule",
-		LevelText: "Decides that every place the id can have been written has a remover on the delete path and that the path is complete on every non-failing route: child stores delegate to the parent; the parent runs, for every child strategy, the child's delete constraints, then its own, then removes the entity bucket (child data lives below it); every index-writing constraint type has a delete-side remover; updates remove the old back-reference on every changed path (otherwise a later delete cannot find it); entity deletion removes the remote side of every link without deleting under the live cursor. That removers delete exactly the keys writers wrote on every history is not decided (the repository's ValidateDeleted oracle does that at run time).",
-		LevelNote: "Trusted: go/types, x/tools SSA, bbolt (DeleteBucket removes nested buckets).",
-		DesignRef: "DESIGN.md C06",
+		ID:          "C06",
+		Title:       "A committed delete leaves no trace of the entity's id",
+		Technique:   "static analysis: must-pass orchestration of the delete path (parent delegation, child fan-out, constraints, link cleanup, entity bucket removal), writer⊆remover pairing per constraint type, stale-back-reference rule on updates, unconditional remote link removal, no-mutation-of-the-iterated-bucket rule",
+		LevelText:   "Decides that every place the id can have been written has a remover on the delete path and that the path is complete on every non-failing route: child stores delegate to the parent; the parent runs, for every child strategy, the child's delete constraints, then its own, then removes the entity bucket (child data lives below it); every index-writing constraint type has a delete-side remover; updates remove the old back-reference on every changed path (otherwise a later delete cannot find it); entity deletion removes the remote side of every link without deleting under the live cursor. That removers delete exactly the keys writers wrote on every history is not decided (the repository's ValidateDeleted oracle does that at run time).",
+		LevelNote:   "Trusted: go/types, x/tools SSA, bbolt (DeleteBucket removes nested buckets).",
+		DesignRef:   "DESIGN.md C06",
 		Explanation: "Sites: BaseStore.DeleteById/processDeleteConstraints/cleanupLinks, NewBaseStore path construction, all Constraint implementers, link collections' EntityDeleted.",
-		Trusted:   []string{"go/types", "golang.org/x/tools/go/ssa v0.29.0", "bbolt"},
+		Trusted:     []string{"go/types", "golang.org/x/tools/go/ssa v0.29.0", "bbolt"},
 		Rules: func(c *Ctx) {
 			ruleDeleteOrch(c, "C06.ORCH")
 			rulePairCapture(c, "C06.REMOVERS")
 			ruleOldFirst(c, "C06.STALE", []string{"uniqueIndex", "fkIndex"})
 			ruleLinkCleanup(c, "C06.LINKS")
+			ruleFkDelete(c, "C06.CASCADE")
+			ruleCleanupPlacement(c, "C06.LINKS")
 			ruleNoMutateWhileIterating(c, "C06.ITERATE", c.prodFuncs("boltz"))
 			ruleChildPaths(c, "C06.PATHS")
 		},
@@ -476,10 +483,12 @@ func ruleEmptyKey(c *Ctx, rule string) {
 			}
 		}
 		// every DeleteListEntry is followed by the probe before the next iteration
+		nRemovals := 0
 		for _, call := range callsIn(fn) {
-			if !isCallTo(call, delEntry) {
+			if !isCallTo(call, delEntry) && !isCallTo(call, tbMethod(c, "CheckAndDeleteListEntry")) {
 				continue
 			}
+			nRemovals++
 			ri := reachWithoutFrom(fn, call, func(in ssa.Instruction) bool { return isCallTo(in, first) })
 			sameBlock := false
 			for i := instrIndex(call) + 1; i < len(call.Block().Instrs); i++ {
@@ -490,6 +499,9 @@ func ruleEmptyKey(c *Ctx, rule string) {
 			if !sameBlock && ri.entryReach[call.Block()] {
 				ok, why = false, "after removing an entry the loop can continue without probing whether the key became empty"
 			}
+		}
+		if nRemovals == 0 {
+			ok, why = false, "no removal of the entity's entries found"
 		}
 		c.Check(ok && nDel > 0, rule, name, p.Pos(fn.Pos()), "each removed entry is followed by an emptiness probe and the key is pruned only under that probe", why)
 	}
@@ -625,13 +637,13 @@ func ruleIndexErrors(c *Ctx, rule string) {
 func ruleInject(c *Ctx, rule string) {
 	p := c.P
 	sinks := map[*types.Func]int{ // function -> index of the query-text argument (receiver excluded)
-		p.Func("ast", "Parse"):                            1,
-		p.Func("zitiql", "Parse"):                         0,
-		p.Func("zitiql", "ParseWithDebug"):                0,
-		p.Method("boltz", "BaseStore", "QueryIds"):        1,
-		p.Method("boltz", "BaseStore", "DeleteWhere"):     1,
-		p.Method("boltz", "Store", "QueryIds"):            1,
-		p.Method("boltz", "Store", "DeleteWhere"):         1,
+		p.Func("ast", "Parse"):                              1,
+		p.Func("zitiql", "Parse"):                           0,
+		p.Func("zitiql", "ParseWithDebug"):                  0,
+		p.Method("boltz", "BaseStore", "QueryIds"):          1,
+		p.Method("boltz", "BaseStore", "DeleteWhere"):       1,
+		p.Method("boltz", "Store", "QueryIds"):              1,
+		p.Method("boltz", "Store", "DeleteWhere"):           1,
 		p.Method("objectz", "ObjectStore", "QueryEntities"): 0,
 	}
 	n := 0
@@ -889,7 +901,19 @@ func ruleFkDelete(c *Ctx, rule string) {
 			}
 		}
 	}
-	c.Check(okNone, rule, FnName(fc)+": CascadeNone restricts", p.Pos(fc.Pos()), "with referrers present and cascade none, a reference-exists error is recorded", "CascadeNone does not refuse the delete of a referenced entity")
+	// the refusal looks at the cursor exactly as IterateValidIds positioned it: no Next/Seek in between
+	if okNone {
+		for _, call := range callsIn(fc) {
+			if !(invokeNamed(call, "Next") || invokeNamed(call, "Seek")) || !call.Common().IsInvoke() {
+				continue
+			}
+			if innermostLoop(loops, call.Block()) != nil {
+				continue // the cascade loop's own re-seek
+			}
+			okNone = false
+		}
+	}
+	c.Check(okNone, rule, FnName(fc)+": CascadeNone restricts", p.Pos(fc.Pos()), "with referrers present and cascade none, a reference-exists error is recorded (first referrer as found by the filter, no skipping)", "CascadeNone does not refuse the delete of a referenced entity for every referrer (the referrer cursor is moved before the test, or no error is recorded)")
 	// cascade delete loop: DeleteById inside a loop driven by the live cursor's IsValid, re-seek after delete
 	var del ssa.CallInstruction
 	for _, call := range callsIn(fc) {
@@ -1315,7 +1339,9 @@ func ruleDeleteOrch(c *Ctx, rule string) {
 			if call, isCall := r.Results[0].(*ssa.Call); isCall && invokeNamed(call, "DeleteById") {
 				continue
 			}
-			if fi.HoldsWhere(r.Block(), func(ft Fact) bool { return ft.Kind == "nonnil" && !ft.Pol && namedOf(ft.V.Type()) == p.Named("boltz", "TypedBucket") }) {
+			if fi.HoldsWhere(r.Block(), func(ft Fact) bool {
+				return ft.Kind == "nonnil" && !ft.Pol && namedOf(ft.V.Type()) == p.Named("boltz", "TypedBucket")
+			}) {
 				continue // no entities bucket at all
 			}
 			ok, why = false, "a successful return at "+p.Pos(r.Pos())+" is reachable without removing the entity bucket"
@@ -1413,4 +1439,128 @@ func ruleChildPaths(c *Ctx, rule string) {
 		}
 	}
 	c.Check(okG, rule, FnName(geb), p.Pos(geb.Pos()), "a child's entity bucket is a sub-path of the (parent's) entity bucket for that id", "a child's entity bucket is not nested below the parent's entity bucket")
+}
+
+// ruleUnchangedShortcut: "value unchanged, nothing to do" may only be taken on updates; on create
+// there is no old value and the constraint's checks (null, existence, duplicate) must run.
+func ruleUnchangedShortcut(c *Ctx, rule string, typeNames []string) {
+	p := c.P
+	isCreate := p.Field("boltz", "IndexingContext", "IsCreate")
+	for _, tn := range typeNames {
+		fn := p.SSAFunc(p.Method("boltz", tn, "ProcessAfterUpdate"))
+		name := FnName(fn)
+		c.Analysed(name)
+		fi := ComputeFacts(fn)
+		ok, n := true, 0
+		for _, r := range returnsOf(fn) {
+			eq := fi.HoldsWhere(r.Block(), func(f Fact) bool {
+				k, isCall := f.V.(*ssa.Call)
+				if f.Kind != "true" || !f.Pol || !isCall {
+					return false
+				}
+				cal, _ := calleeOf(k.Common())
+				return cal != nil && cal.Name() == "Equal" && cal.Pkg() != nil && cal.Pkg().Path() == "bytes"
+			})
+			if !eq {
+				continue
+			}
+			n++
+			if !fi.HoldsWhere(r.Block(), func(f Fact) bool {
+				ff, _ := loadedField(f.V)
+				return f.Kind == "true" && !f.Pol && sameVar(ff, isCreate)
+			}) {
+				ok = false
+			}
+		}
+		c.Check(ok && n > 0, rule, name, p.Pos(fn.Pos()), "the unchanged-value shortcut is taken only when this is not a create", "the unchanged-value shortcut can be taken on create (old value is empty then): a null/empty value skips the not-null and existence checks")
+	}
+}
+
+// rulePathFresh: index paths are built in a fresh slice; appending to the shared base path would
+// alias the paths of different indexes whenever the base slice has spare capacity.
+func rulePathFresh(c *Ctx, rule string) {
+	p := c.P
+	fn := p.SSAFunc(p.Method("boltz", "Indexer", "getIndexPath"))
+	name := FnName(fn)
+	c.Analysed(name)
+	ok := true
+	var root func(v ssa.Value, d int) bool
+	root = func(v ssa.Value, d int) bool {
+		if d > 8 {
+			return false
+		}
+		switch x := v.(type) {
+		case *ssa.Const:
+			return x.IsNil()
+		case *ssa.Call:
+			if bi, isB := x.Call.Value.(*ssa.Builtin); isB && bi.Name() == "append" {
+				return root(x.Call.Args[0], d+1)
+			}
+		case *ssa.Slice:
+			_, fresh := x.X.(*ssa.Alloc)
+			return fresh
+		case *ssa.MakeSlice:
+			return true
+		case *ssa.Phi:
+			for _, e := range x.Edges {
+				if !root(e, d+1) {
+					return false
+				}
+			}
+			return true
+		}
+		return false
+	}
+	for _, r := range returnsOf(fn) {
+		if !root(r.Results[0], 0) {
+			ok = false
+		}
+	}
+	c.Check(ok, rule, name, p.Pos(fn.Pos()), "the returned path is built by appending to a fresh (nil) slice", "the index path is built by appending to a shared slice (the indexer's base path): with spare capacity every index of the store gets the path of the last one registered")
+}
+
+// ruleCleanupPlacement: link cleanup runs inside processDeleteConstraints, i.e. once per store level
+// (parent and every child store), so links declared on child stores are cleaned too.
+func ruleCleanupPlacement(c *Ctx, rule string) {
+	p := c.P
+	pdc := p.SSAFunc(p.Method("boltz", "BaseStore", "processDeleteConstraints"))
+	cleanup := p.Method("boltz", "BaseStore", "cleanupLinks")
+	ok := false
+	for _, call := range callsIn(pdc) {
+		if isCallTo(call, cleanup) && call.Common().Args[0] == ssa.Value(pdc.Params[0]) {
+			ok = true
+		}
+	}
+	c.Check(ok, rule, FnName(pdc)+": cleans this store's links", p.Pos(pdc.Pos()), "every store level (parent and child) cleans its own link collections", "link cleanup is not part of the per-store-level delete processing: link collections declared on a child store are never cleaned")
+}
+
+// ruleKeyPresence: list/link entries are stored with a nil value, so presence must be tested on the
+// key (cursor seek + equality), never through Bucket.Get (nil for an existing nil-valued row).
+func ruleKeyPresence(c *Ctx, rule string) {
+	p := c.P
+	setEntry := p.SSAFunc(tbMethod(c, "SetListEntry"))
+	put := p.ExtMethod(bboltPath, "Bucket", "Put")
+	nilValued := false
+	for _, call := range callsIn(setEntry) {
+		if isCallTo(call, put) && isNilConst(call.Common().Args[2]) {
+			nilValued = true
+		}
+	}
+	fn := p.SSAFunc(tbMethod(c, "IsKeyPresent"))
+	c.Analysed(FnName(fn))
+	get := p.ExtMethod(bboltPath, "Bucket", "Get")
+	seek := p.ExtMethod(bboltPath, "Cursor", "Seek")
+	usesGet, usesSeek, usesEq := false, false, false
+	for _, call := range callsIn(fn) {
+		if isCallTo(call, get) {
+			usesGet = true
+		}
+		if isCallTo(call, seek) {
+			usesSeek = true
+		}
+		if cal, _ := calleeOf(call.Common()); cal != nil && cal.Name() == "Equal" && cal.Pkg() != nil && cal.Pkg().Path() == "bytes" {
+			usesEq = true
+		}
+	}
+	c.Check(!nilValued || (!usesGet && usesSeek && usesEq), rule, FnName(fn), p.Pos(fn.Pos()), "presence is decided by seeking the key and comparing it (entries carry nil values)", "entries are written with a nil value but presence is tested through the value (Bucket.Get): an existing entry looks absent, so CheckAndDelete/CheckAndSet act on one side only")
 }
